@@ -128,6 +128,16 @@ def judge(lines, info, traj, run: Run, recs, ended):
             for c in cancels:
                 # an *accepted* cancel must keep the body from starting afterwards (a cancel that comes too late, i.e. after the
                 # condition was seen true, is rejected by the engine and then does not count as a cancel)
+                # ... within the same invocation: when an enclosing Alarm has started again in between, this is a new
+                # invocation of the nested Watch/Alarm, which the cancel of the earlier one does not concern
+                anc_starts = []
+                p_ = li["parent"]
+                while p_ is not None:
+                    if info[p_]["name"] == "Alarm" and info[p_]["id"] in rec:
+                        anc_starts += rec[info[p_]["id"]]["started"]
+                    p_ = info[p_]["parent"]
+                if any(c <= a <= s for a in anc_starts):
+                    continue
                 if s >= c:
                     late = any(cond[lo:c]) or any(f < c for f in forces)
                     probs.append((f"C04:{kind}-body-started-after-cancel" + (":cancel-accepted-after-activation" if late else ""),
